@@ -204,36 +204,15 @@ static int streamMessage(void *ptr, const MPT_STRUCT(message) *msg)
 static int streamDispatch(MPT_INTERFACE(input) *in, MPT_TYPE(event_handler) cmd, void *arg)
 {
 	MPT_STRUCT(streamInput) *srm = (void *) in;
-	ssize_t len;
-	int ret;
+	struct streamWrap sw;
 	
-	if ((len = srm->data._rd._state.data.msg) < 0) {
-		if ((ret = mpt_queue_recv(&srm->data._rd)) < 0) {
-			return ret;
-		}
-		if (!ret) {
-			if ((ret = _mpt_stream_fread(&srm->data._info)) < 0) {
-				return 0;
-			} else {
-				return MPT_EVENTFLAG(None);
-			}
-		}
-	}
-	if (cmd) {
-		struct streamWrap sw;
-		sw.in = srm;
-		sw.cmd = cmd;
-		sw.arg = arg;
-		return mpt_stream_dispatch(&srm->data, streamMessage, &sw);
-	}
-	srm->data._rd._state.data.pos += len;
-	srm->data._rd._state.data.len -= len;
-	srm->data._rd._state.data.msg = -1;
-	mpt_queue_shift(&srm->data._rd);
+	sw.in = srm;
+	sw.cmd = cmd;
+	sw.arg = arg;
 	
-	ret = mpt_queue_recv(&srm->data._rd);
-	
-	return (ret > 0) ? MPT_EVENTFLAG(Retry) : MPT_EVENTFLAG(None);
+	/* stream dispatch receives the next message (supplying decoder
+	 * scratch space when needed) and consumes it if no handler is set */
+	return mpt_stream_dispatch(&srm->data, cmd ? streamMessage : 0, &sw);
 }
 
 
